@@ -23,7 +23,7 @@ type Flight struct {
 	SentStep int
 	Dup      bool // a copy of this message was already delivered
 	HasSnap  bool
-	Seq      int // per-link send sequence number: the address used by Deliver/Drop
+	Seq      int         // per-link send sequence number: the address used by Deliver/Drop
 	Msg      *pb.Message // by-reference transport only: the object the sender produced
 }
 
@@ -350,6 +350,12 @@ func (c *Cluster) guard(n *Node, what string, f func() error) (ok bool) {
 		seam.cur = nil
 		if r := recover(); r != nil {
 			ok = false
+			if _, abandoned := r.(runAbandoned); abandoned {
+				if c.viol == nil {
+					c.viol = &Violation{Property: "ABANDONED", Oracle: "wall_clock", Sig: "wall_clock", Step: c.step, Msg: "run abandoned: a call into the node did not come back to a scheduling point within the per-run wall-clock limit"}
+				}
+				return
+			}
 			stack := debug.Stack()
 			if np, isNP := r.(nodePanic); isNP {
 				// the run loop goroutine of a raft.Node panicked (E3)
